@@ -980,7 +980,9 @@ class Operations:
         nodes = tuple(nodes)
         setnodes = tuple(sorted(set(nodes) - set([knotvector[0], knotvector[-1]])))
         oldnpts = knotvector.npts
-        matrix = np.eye(oldnpts, dtype="object")
+        one = knotvector[-1] - knotvector[0]
+        one /= one  # The unit of the knots' number type
+        matrix = one * np.eye(oldnpts, dtype="object")
         if len(nodes) == 0:
             return totuple(matrix)
         for node in setnodes:
